@@ -31,14 +31,14 @@ type seqCheck struct {
 var seqChecks = map[string]seqCheck{
 	"C01": {families: []string{"core", "cfg", "roll", "inputs", "inputs-nt", "helpers"}},
 	"C02": {families: []string{"tail", "core"}},
-	"C03": {families: []string{"core", "cfg", "roll", "tail", "inputs"}},
-	"C04": {families: []string{"core", "cfg", "roll", "tail", "inputs"}},
-	"C09": {families: []string{"collide"}},
-	"C10": {families: []string{"times", "core", "cfg", "roll", "inputs", "helpers"}},
+	"C03": {families: []string{"core", "cfg", "roll", "tail", "inputs", "firstcall"}},
+	"C04": {families: []string{"core", "cfg", "roll", "tail", "inputs", "firstcall"}},
+	"C09": {families: []string{"collide", "firstcall"}},
+	"C10": {families: []string{"times", "core", "cfg", "roll", "inputs", "helpers", "firstcall"}},
 	"C11": {families: []string{"ixfiles"}, thorough: []string{"ixfiles", "ixfiles-all"}, post: runIndexSched},
 	"C12": {families: []string{"del"}},
-	"C13": {families: []string{"core", "cfg", "roll", "inputs"}, pre: runCodecx},
-	"C15": {families: []string{"trim"}},
+	"C13": {families: []string{"core", "cfg", "roll", "inputs", "firstcall"}, pre: runCodecx},
+	"C15": {families: []string{"trim", "firstcall"}},
 	"C16": {families: []string{"kv", "kv-rx"}},
 	"C17": {families: []string{"versions", "versions-mid"}},
 	"C20": {families: []string{"backup"}, post: runBackupSched},
@@ -53,7 +53,7 @@ func tierBudget(tier string) time.Duration {
 	if tier == "thorough" {
 		return 20 * time.Minute
 	}
-	return 150 * time.Second
+	return 240 * time.Second
 }
 
 func runCheck(prop, tier string) int {
